@@ -76,6 +76,23 @@ impl Def {
 fn last_covering<'a>(defs: &'a [Def], code: u32, len: u8) -> Option<&'a Def> { defs.iter().rev().find(|d| d.covers(code, len)) }
 fn defines(defs: &[Def], code: u32, len: u8) -> Option<Option<Vec<u16>>> { last_covering(defs, code, len).map(|d| d.target(code)) }
 
+/// THE SEGMENTATION SPEC (Spec/CMapSeg.lean `segSpec`, written again here): at the current position the code lengths
+/// 1,2,3,4 are tried in this order, the first mapped one wins; if none of the (up to four) prefixes is mapped, one
+/// U+FFFD stands for up to four bytes. `None`: a malformed definition answers for one of the tried codes.
+fn seg_spec(defs: &[Def], bytes: &[u8]) -> Option<Vec<u16>> {
+    let mut out = vec![];
+    let mut p = 0usize;
+    while p < bytes.len() {
+        let mut hit = None;
+        for k in 1..=4usize.min(bytes.len() - p) {
+            let code = bytes[p..p + k].iter().fold(0u32, |a, b| a * 256 + *b as u32);
+            match defines(defs, code, k as u8) { None => {}, Some(None) => return None, Some(Some(v)) => { hit = Some((k, v)); break; } }
+        }
+        match hit { Some((k, v)) => { out.extend(v); p += k; } None => { out.push(0xFFFD); p += 4usize.min(bytes.len() - p); } }
+    }
+    Some(out)
+}
+
 fn flatten(secs: &[Sec]) -> Vec<Def> {
     let mut v = vec![];
     for s in secs { match s { Sec::Cs(_) => {}, Sec::Chars(d) | Sec::Ranges(d) => v.extend(d.iter().cloned()) } }
@@ -509,6 +526,22 @@ fn make_sloppy(r: &mut Rng, defs: &mut Vec<Def>) {
     }
 }
 
+/// codes of different lengths that are prefixes of one another, and bytes that start nothing: where "first mapped
+/// length wins" differs from longest match and where unmapped bytes drag followers along
+fn gen_prefix_defs(r: &mut Rng) -> (Vec<Def>, Vec<u8>) {
+    let alphabet: Vec<u8> = (0..3 + r.usize(3)).map(|_| if r.chance(1, 3) { r.byte() } else { 0x40 + r.below(6) as u8 }).collect();
+    let mut defs = vec![];
+    let n = 2 + r.usize(7);
+    for _ in 0..n {
+        let len = 1 + r.below(4) as u8;
+        let code = (0..len).fold(0u32, |a, _| a * 256 + *r.pick(&alphabet) as u32);
+        let multi = r.chance(1, 4);
+        if r.chance(1, 4) && code < max_code(len) { defs.push(Def::Range { lo: code, hi: code + r.below(2) as u32, len, dsts: vec![vec![0x61 + r.below(26) as u16]] }); }
+        else { defs.push(Def::Char { code, len, dst: gen_target(r, multi) }); }
+    }
+    (defs, alphabet)
+}
+
 /// split a definition list into sections (bfchar lines must be Char, bfrange lines Range); a Char may be rewritten as a 1-wide range
 fn sectionize(r: &mut Rng, defs: &[Def]) -> Vec<Sec> {
     let mut secs: Vec<Sec> = vec![];
@@ -544,8 +577,19 @@ fn gen_queries(r: &mut Rng, defs: &[Def]) -> Vec<(u32, u8)> {
 fn code_bytes(code: u32, len: u8) -> Vec<u8> { (0..len).rev().map(|i| (code >> (8 * i as u32)) as u8).collect() }
 
 /// byte strings over the mapped codes (plus a few with unmapped bytes)
+thread_local! { static PREFIX_ALPHABET: std::cell::RefCell<Vec<u8>> = std::cell::RefCell::new(vec![]); }
+
 fn gen_inputs(r: &mut Rng, defs: &[Def]) -> Vec<(Vec<u8>, Vec<(u32, u8)>)> {
     let mut out = vec![];
+    // strings over the small alphabet of the "prefix" stream (correspondence + total segmentation oracle)
+    let alphabet = PREFIX_ALPHABET.with(|a| a.borrow().clone());
+    if !alphabet.is_empty() {
+        for _ in 0..6 {
+            let k = r.usize(14);
+            let bytes: Vec<u8> = (0..k).map(|_| if r.chance(1, 8) { r.byte() } else { *r.pick(&alphabet) }).collect();
+            out.push((bytes, vec![]));
+        }
+    }
     // raw strings: mapped codes interleaved with arbitrary bytes (unmapped codes, 4-byte flush, trailing partial code);
     // an empty code list marks them as correspondence-only
     for _ in 0..2 {
@@ -649,6 +693,24 @@ fn check_case(c: &mut Ctx, r: &mut Rng, stream: &str, secs: &[Sec], st: Stats, s
     }
     // ---- oracle: decoding of strings of mapped, prefix-free codes
     for (k, ((bytes, codes), d)) in inputs.iter().zip(real.decodes.iter()).enumerate() {
+        // every byte string (mapped or not, prefix-free or not): theorem cmap_decode_total_defines
+        match seg_spec(&defs, bytes) {
+            None => c.count("decode.total_malformed_def"),
+            Some(units) => {
+                let want: String = char::decode_utf16(units.iter().cloned()).map(|x| x.unwrap_or('\u{FFFD}')).collect();
+                // the Lean specification itself must agree with this oracle (op cmap_segspec runs Spec/CMapSeg.lean)
+                if in_proved_domain(&defs) && bytes.len() <= 24 {
+                    c.corr(format!("cmap_segspec {}q {}", secs_tok, hex_tok(bytes)), format!("ok {}", units_tok(&units)));
+                }
+                if matches!(d, Ok(Ok(s)) if *s == want) {
+                    c.count("decode.total_ok");
+                    if units.contains(&0xFFFD) { c.count("decode.total_with_replacement"); }
+                } else {
+                    c.oracle_fail("total-segmentation", &format!("decode_text({}) = {} but the segmentation spec gives {:?}", hex(bytes), show_decode(d), want),
+                        json!({"stream": stream, "sections": secs_tok, "bytes": hex(bytes), "cmap_text": String::from_utf8_lossy(&text)}));
+                }
+            }
+        }
         if codes.is_empty() { c.count("decode.raw_bytes"); if matches!(d, Ok(Ok(s)) if s.contains('\u{FFFD}')) { c.count("decode.raw_with_replacement"); } continue; }
         let prefix_free = codes.iter().all(|(code, len)| (1..*len).all(|l| defines(&defs, code >> (8 * (*len - l) as u32), l).is_none()));
         if !prefix_free { c.count("decode.not_prefix_free"); continue; }
@@ -877,6 +939,15 @@ edits) and grammar (24 lines at and beyond the edges of the grammar) — corresp
     for i in 0..c.n(1500, 25000) {
         let Some(mut r) = c.case("malformed", i) else { continue };
         malformed_case(c, &mut r);
+    }
+    // prefix-related codes and unmapped bytes: the total segmentation spec (theorem cmap_decode_total_defines)
+    for i in 0..c.n(1000, 20000) {
+        let Some(mut r) = c.case("prefix", i) else { continue };
+        let (defs, alphabet) = gen_prefix_defs(&mut r);
+        let secs = sectionize(&mut r, &defs);
+        PREFIX_ALPHABET.with(|a| *a.borrow_mut() = alphabet);
+        check_case(c, &mut r, "prefix", &secs, Stats { strict: true, canonical: false }, true);
+        PREFIX_ALPHABET.with(|a| a.borrow_mut().clear());
     }
     // accepted but malformed targets: no panic (theorem cmap_get_no_panic), model/implementation correspondence
     for i in 0..c.n(800, 15000) {
